@@ -458,7 +458,9 @@ pub fn check_main(engine: &'static dyn Engine, args: CheckArgs) -> i32 {
     }
     violations.extend(engine.history_check(&stats));
     let completed = outcome.reports.len() as u64;
-    let missing = n - completed - violations.iter().filter(|v| v.class == "abort" || v.class == "hang").count() as u64;
+    // driver-level violations (a run that killed or stalled its worker) carry a `rerun` trace
+    let unreported = violations.iter().filter(|v| (v.class == "abort" || v.class == "hang") && v.trace.get("rerun").is_some()).count() as u64;
+    let missing = n.saturating_sub(completed).saturating_sub(unreported);
     if missing > 0 {
         harness_errors.push(format!("{missing} runs produced no report"));
     }
@@ -514,7 +516,8 @@ pub fn check_main(engine: &'static dyn Engine, args: CheckArgs) -> i32 {
     // Unknown violations grouped by class, simplest trace first; at most MAX_PER_CLASS of each
     // class are written, replay-verified in a fresh process and printed (a broken tree can
     // produce thousands of signatures of one class; each still counts in the evidence).
-    const MAX_PER_CLASS: usize = 3;
+    #[allow(non_snake_case)]
+    let MAX_PER_CLASS: usize = std::env::var("VERIF_MAX_PER_CLASS").ok().and_then(|s| s.parse().ok()).unwrap_or(3);
     let mut by_class: BTreeMap<String, Vec<&Violation>> = BTreeMap::new();
     for (sig, v) in by_sig.iter() {
         if let Some(kf) = known
